@@ -236,6 +236,12 @@ func (m *Machine) nondetIntrinsic(name string, args []Val) (Val, bool) {
 		// a harness that runs one long concrete computation raises the per-path instruction budget
 		m.maxSteps = m.cInt(args[0], name)
 		return nil, true
+	case "VerifAllocBudget":
+		m.allocLimit = m.allocBytes + int64(m.cInt(args[0], name))
+		return nil, true
+	case "VerifAllocEnd":
+		m.allocLimit = 0
+		return nil, true
 	case "VerifFaultOpen":
 		m.faultOpen = m.cInt(args[0], name)
 		return nil, true
